@@ -17,6 +17,24 @@ MANIFEST = dict(
     technique="TLA+/TLC exhaustive model of fork choice + replay of an edge cover of the TLC graph on the real chain service + reference-node state comparison")
 
 
+def failed_then_switched(b, parent):
+    def anc(x):
+        out = set()
+        while x in parent:
+            x = parent[x]
+            out.add(x)
+        return out
+    err, prev = False, "g"
+    for s in b["steps"]:
+        best = s["dst"]["best"]
+        if s["res"] == "error":
+            err = True
+        elif err and best != prev and prev not in anc(best):
+            return True
+        prev = best
+    return False
+
+
 def run(c):
     rng = random.Random(c.seed)
     c.rule = ("behaviours = edge cover of the complete TLC transition graph of ChainDB.tla over a block tree (every transition on >=1 path); "
@@ -27,9 +45,21 @@ def run(c):
         c.require_ok(vlib.tlc(cc.SPEC_DIR, "MC_ChainDB", cfg, c.work, timeout=900), what)
     if c.tier == "thorough":
         c.require_ok(vlib.tlc(cc.SPEC_DIR, "MC_ChainDB", "MC_ChainDB_T2.cfg", c.work, timeout=1500), "T2: three branches")
-    trees = [("T1", 1, 700)] if c.tier == "quick" else [("T0", 1, None), ("T1", 1, None), ("T2", 1, 2500)]
+    trees = [("T1", 1, 700), ("T3", 1, 260)] if c.tier == "quick" else [("T0", 1, None), ("T1", 1, None), ("T2", 1, 2500), ("T3", 1, 2000)]
     for tree, arr, maxp in trees:
-        behs, ntr, nst = cc.behaviours(c, tree, max_arrivals=arr, libs=(1,) if tree == "T0" else (1, 2), rng=rng, max_paths=maxp, timeout=1500)
+        if tree == "T3":
+            # T3 (a branch that continues both as an invalid and as a valid suffix): the whole edge cover is large; the
+            # behaviours in which an arrival fails and a LATER arrival still switches the node to another branch come first
+            behs, ntr, nst = cc.behaviours(c, tree, max_arrivals=arr, libs=(1,), rng=rng, timeout=1500)
+            first = [b for b in behs if failed_then_switched(b, cc.TREES[tree]["parent"])]
+            rest = [b for b in behs if b not in first]
+            rng.shuffle(first)
+            rng.shuffle(rest)
+            nfirst = min(len(first), (maxp * 3) // 5)
+            behs = first[:nfirst] + rest[:maxp - nfirst]
+            c.notes.append("tree T3: %d behaviours with a failed arrival followed by a branch switch, %d replayed" % (len(first), nfirst))
+        else:
+            behs, ntr, nst = cc.behaviours(c, tree, max_arrivals=arr, libs=(1,) if tree == "T0" else (1, 2), rng=rng, max_paths=maxp, timeout=1500)
         c.notes.append("tree %s: %d transitions, %d states, %d behaviours" % (tree, ntr, nst, len(behs)))
         cc.replay(c, tree, behs, cc.C07_KINDS, reference=True, nshards=8)
         c.traces_validated += len(behs)
